@@ -171,6 +171,9 @@ func (p *PostgresDB) Prepare(ctx context.Context, query string) (*sql.Stmt, erro
 	if p.db == nil {
 		return nil, fmt.Errorf("database not connected")
 	}
+	if tx := txFromContext(ctx); tx != nil {
+		return tx.PrepareContext(ctx, query)
+	}
 	return p.db.PrepareContext(ctx, query)
 }
 
